@@ -305,6 +305,18 @@ func runCase(col sink, st *stepper, caseID string, f fault, rep int) {
 		fake.Last().Fail(ferr)
 		col.Count("stream_failures_with_nothing_outstanding", 1)
 	}
+	if rep%2 == 1 && f.side != "eof" && f.side != "recv-idle" && f.side != "recv-unused" {
+		// an application that looks at the client's status first (until the failure shows
+		// there) and only then waits for Done: looking must not use the signal up
+		st.current = "Status() until the stream failure is visible"
+		for k := 0; k < 50000; k++ {
+			if stt, err := c.Status(); err == nil && len(stt.SendErrs)+len(stt.ReadErrs) > 0 {
+				break
+			}
+			time.Sleep(200 * time.Microsecond)
+		}
+		col.Count("status_polled_before_waiting_for_done", 1)
+	}
 	st.current = "waiting for Done"
 	select {
 	case <-c.Done():
@@ -312,6 +324,25 @@ func runCase(col sink, st *stepper, caseID string, f fault, rep int) {
 		if f.side == "eof" {
 			// a clean end with everything answered may leave the sender idle: not an error
 		} else {
+			// nobody left who could signal it? (every goroutine of the client package is gone,
+			// or sits blocked and unchanged in two dumps a second apart)
+			snap := func() string {
+				var l []string
+				for _, g := range mon.InRepo(mon.Dump(), "github.com/openconfig/gribigo/client.") {
+					if strings.Contains(g.Stack, "verifharness/") {
+						continue
+					}
+					l = append(l, g.ID+"["+g.State+"]"+g.Stack)
+				}
+				sort.Strings(l)
+				return strings.Join(l, "\n")
+			}
+			a := snap()
+			time.Sleep(time.Second)
+			if b := snap(); a == b && !strings.Contains(a, "[running]") && !strings.Contains(a, "[runnable]") {
+				problem("done-never-signalled", "the stream failed ("+f.String()+") and the error is recorded, but Done() is not signalled and no goroutine of the client is left that could signal it")
+				return
+			}
 			panic("watchdog") // handled by the child's case watchdog through st.current
 		}
 	}
@@ -486,6 +517,10 @@ func TestChild(t *testing.T) {
 			col.Eval(1)
 			col.Distinct(caseID)
 			col.Seen("fault_kinds", fmt.Sprintf("%s/%s/%s", f.side, f.code, f.after))
+			if col.Problems() >= 8 {
+				col.Flush()
+				return // enough witnesses from this child
+			}
 			if stuck {
 				if ok, desc := mon.ProvenBlockIgnoringPollers("gribigo/client.(*Client).", time.Second, "github.com/openconfig/gribigo/client."); ok {
 					col.Violation(caseID, "client-blocked:"+strings.ReplaceAll(strings.SplitN(st.current, " (", 2)[0], " ", "-")+":"+blockFns(desc), "after "+f.String()+" the step '"+st.current+"' never returned and the client is permanently blocked: "+desc, map[string]any{"fault": f.String()})
